@@ -403,7 +403,7 @@ fn wait_race_scenario(flavor: Flavor, scen: u64, seed: u64) -> (Findings, Value)
 fn grid_scenario(flavor: Flavor, cfgv: (usize, i64, usize, usize, bool, bool, u64), seed: u64) -> (Findings, Value) {
     let mut f = Findings::default();
     let (nc, mc, bs, bi, metrics, ignore, cleanup_ms) = cfgv;
-    let cfg = Cfg { num_counters: nc, max_cost: mc, buffer_size: bs, buffer_items: bi, metrics, ignore_internal: ignore, cleanup: if cleanup_ms == 0 { None } else { Some(Duration::from_millis(cleanup_ms)) }, collide: false, manual_ticker: false };
+    let cfg = Cfg { num_counters: nc, max_cost: mc, buffer_size: bs, buffer_items: bi, metrics, ignore_internal: ignore, cleanup: if cleanup_ms == 0 { None } else { Some(Duration::from_millis(cleanup_ms)) }, collide: false, collide_zero_even: false, manual_ticker: false };
     let desc = json!({"flavor": flavor.name(), "num_counters": nc, "max_cost": mc, "buffer_size": bs, "buffer_items": bi, "metrics": metrics, "ignore_internal_cost": ignore, "cleanup_ms": cleanup_ms, "seed": seed});
     let zero = nc == 0 || mc == 0 || bs == 0;
     let r = fresh(flavor, &cfg);
